@@ -38,7 +38,7 @@ struct Hdr {
     size_t size; // requested
     size_t cap;  // usable capacity of this block (class size)
     uint64_t alloc_seq; // simulator event number at allocation
-    uint64_t flags;     // bit0: must be zero at release
+    uint64_t flags;     // bit0: must be zero at release; bit1: carved out of a recycled page (never reused, not malloc'ed)
 };
 static_assert(sizeof(Hdr) == 48, "hdr");
 
@@ -81,6 +81,7 @@ static void *do_acquire(size_t size) {
     if (S.cfg.yield_points) sim::yield(sim::PK_HARNESS, nullptr, 1);
     size_t cap = class_of(size ? size : 1);
     Hdr *h = nullptr;
+    bool carved = false;
     auto it = S.freelists.find(cap);
     if (it != S.freelists.end() && !it->second.empty() && S.rng.chance(S.cfg.p_reuse)) {
         h = it->second.back();
@@ -88,16 +89,25 @@ static void *do_acquire(size_t size) {
         UNPOISON(user_of(h), h->cap + GUARD);
         S.reused++;
     } else {
-        h = (Hdr *)malloc(sizeof(Hdr) + GUARD + cap + GUARD);
-        if (!h) { fprintf(stderr, "dsim: out of real memory\n"); _Exit(2); }
-        h->cap = cap;
-        S.all.push_back(h);
+        void *pg = nullptr;
+        if (S.cfg.carve_recycled && size > 512 && size <= 3500 && (pg = sim::take_recycled_page()) != nullptr) {
+            // inside a page the code under test freed earlier; its first 64 bytes keep whatever that code left there
+            h = (Hdr *)((uint8_t *)pg + 64);
+            h->cap = cap;
+            carved = true;
+            sim::probe("large_block_placed_in_recycled_page");
+        } else {
+            h = (Hdr *)malloc(sizeof(Hdr) + GUARD + cap + GUARD);
+            if (!h) { fprintf(stderr, "dsim: out of real memory\n"); _Exit(2); }
+            h->cap = cap;
+            S.all.push_back(h);
+        }
     }
     h->magic = MAGIC_LIVE;
     h->id = S.next_id++;
     h->size = size;
     h->alloc_seq = sim::seq();
-    h->flags = 0;
+    h->flags = carved ? 2 : 0;
     uint8_t *u = user_of(h);
     memset(u - GUARD, GUARD_BYTE, GUARD);
     memset(u, S.junk, size);
@@ -130,7 +140,7 @@ static void do_release(void *p, bool internal = false) {
     h->magic = MAGIC_FREE;
     memset(u, FREE_BYTE, h->cap + GUARD);
     POISON(u, h->cap + GUARD);
-    S.freelists[h->cap].push_back(h);
+    if (!(h->flags & 2)) S.freelists[h->cap].push_back(h);
 }
 
 static void *vt_acquire(struct aws_allocator *, size_t size) { return do_acquire(size); }
